@@ -15,6 +15,7 @@ import (
 	"os"
 	"os/exec"
 	"path/filepath"
+	"regexp"
 	"strings"
 	"syscall"
 	"time"
@@ -95,6 +96,21 @@ func main() {
 	if err := rewrite.Rewrite(repo, repo, repoDst, "verif", instrumented); err != nil {
 		fatal(prop, "instrumenting %s: %v", repo, err)
 	}
+	// 2b. environment behaviour the repository's own server side cannot show: a server-side channel that revises
+	// the requested token lifetime (hook uasc.VerifEnvReviseLifetime). Only the server's answer is routed through
+	// the hook; the scenarios learn through VERIF_ENV_REVISE whether that was possible on this tree.
+	envRevise := "missing"
+	if f := filepath.Join(repoDst, "uasc", "secure_channel.go"); true {
+		if b, e := os.ReadFile(f); e == nil {
+			re := regexp.MustCompile(`RevisedLifetime:\s*req\.RequestedLifetime,`)
+			if _, e2 := os.Stat(filepath.Join(repoDst, "uasc", "export_verif_env.go")); e2 == nil && len(re.FindAll(b, -1)) == 1 {
+				b = re.ReplaceAll(b, []byte("RevisedLifetime: verifEnvRevise(req.RequestedLifetime),"))
+				if os.WriteFile(f, b, 0o644) == nil {
+					envRevise = "installed"
+				}
+			}
+		}
+	}
 	// 3. the scenario package (type-checked against the original repository, rewritten the same way)
 	// (several comma-separated packages may be given; the first one holds the registry)
 	scens := strings.Split(scen, ",")
@@ -160,7 +176,7 @@ replace verifrt => %s
 	jobs := filepath.Join(work, "jobs")
 	os.MkdirAll(jobs, 0o755)
 	run := exec.Command(bin, prop)
-	run.Env = append(os.Environ(), "VERIF_E2_WORK="+jobs, "GOMAXPROCS=2")
+	run.Env = append(os.Environ(), "VERIF_E2_WORK="+jobs, "GOMAXPROCS=2", "VERIF_ENV_REVISE="+envRevise)
 	if race {
 		// reports go to <jobs>/race.<pid>; the driver attributes them to the schedule that produced them
 		run.Env = append(run.Env, "GORACE=halt_on_error=0 exitcode=0 log_path="+filepath.Join(jobs, "race"), "VERIF_RACE_LOG="+filepath.Join(jobs, "race"))
